@@ -196,8 +196,10 @@ theorem processBunch_osame (c : Conn) (x : Channel) (b : Bunch) (hx : c.getChan 
   · exact emit_osame _ _
   · split
     · split
-      · exact setChan_osame _ _ x _ hx rfl
       · exact emit_osame _ _
+      · split
+        · exact setChan_osame _ _ x _ hx rfl
+        · exact emit_osame _ _
     · exact receivedNextBunch_osame _ _
 
 theorem getOrCreateChan_get (c : Conn) (b : Bunch) (inc : Bool) :
